@@ -66,8 +66,9 @@ def render(toks):
     return "".join(t["s"] for t in toks)
 
 
-def attr(k, v, t="s"):
-    return {"k": k, "t": t, "v": v, "r": 0}
+def attr(k, v, t="s", f=False):
+    """f: removed from the stream by the view's attribute filter (only visible as exemplar label)"""
+    return {"k": k, "t": t, "v": v, "r": 0, "f": f, "n": 0}
 
 
 def aset(*attrs):
@@ -76,6 +77,7 @@ def aset(*attrs):
     vals = sorted(a["v"].encode() for a in as_)
     for a in as_:
         a["r"] = vals.index(a["v"].encode())
+        a["n"] = len(render(a["k"])) + len(a["v"])     # runes of key + value
     return as_
 
 
@@ -115,9 +117,10 @@ def configs(tier):
     cfgs = []
 
     def add(name, optsl, templates, ases=None, recas=(1,), vals=(3,), res=RES1, maxinst=1, maxrec=1, maxscr=1, budget=None,
-            scopes=()):
+            scopes=(), spans=(False,), mark=True):
         cfgs.append(dict(name=name, opts=optsl, templates=templates, ases=ases or [[]], recas=list(recas), vals=list(vals),
-                         res=res, maxinst=maxinst, maxrec=maxrec, maxscr=maxscr, budget=budget, scopes=list(scopes)))
+                         res=res, maxinst=maxinst, maxrec=maxrec, maxscr=maxscr, budget=budget, scopes=list(scopes),
+                         spans=list(spans), mark=mark))
 
     # ---- names: token sequences x units x kinds x options
     alpha = [w("foo"), TOT, u("seconds"), sep("_"), sep(".")]
@@ -177,12 +180,34 @@ def configs(tier):
     templ = [inst(1, [w("foo")], "counter", scope="sA"), inst(2, [w("bar")], "gauge", scope="sB"),
              inst(3, [w("baz")], "hist", scope="sA")]
     add("infos", [opts(s, **o) for s in SCHEMES for o in iopts], templ, res=RES3, maxinst=2, maxrec=2, maxscr=1)
-    # ---- scopes: a scope is (name, version, schema URL) but its labels carry name and version only
-    sa2 = {"id": "sA2", "name": "sA", "version": "vsA", "url": "https://example.com/schema/2"}
+    # ---- scopes: a scope is (name, version, schema URL, attributes) but its labels carry name and version only.
+    # No vinst marker here: series of equal instruments in scopes with equal labels are really identical.
+    sa2 = {"id": "sA2", "name": "sA", "version": "vsA", "url": "https://example.com/schema/2", "attrs": []}
+    sa3 = {"id": "sA3", "name": "sA", "version": "vsA", "url": "",
+           "attrs": aset(attr([w("lib"), sep("."), w("kind")], "b"), attr([w("n")], "3", "i"))}
     templ = [inst(1, [w("foo")], "counter", scope="sA"), inst(2, [w("bar")], "gauge", scope="sA2"),
-             inst(3, [w("foo")], "counter", scope="sA2"), inst(4, [w("baz")], "hist", scope="sB")]
+             inst(3, [w("foo")], "counter", scope="sA2"), inst(4, [w("baz")], "hist", scope="sB"),
+             inst(5, [w("foo")], "counter", scope="sA3"), inst(6, [w("qux")], "updown", scope="sA3")]
     add("scopes", [opts(s, **o) for s in SCHEMES for o in (dict(), dict(noScope=True))], templ, vals=(1,),
-        maxinst=3 if th else 2, maxrec=3 if th else 2, maxscr=2, scopes=[sa2])
+        maxinst=3 if th else 2, maxrec=3 if th else 2, maxscr=2, scopes=[sa2, sa3], mark=False,
+        ases=[[], aset(attr([w("k")], "v"))], recas=(1, 2) if th else (1,))
+    # ---- exemplars: measurements inside sampled spans; the view filters attributes out of the stream, they become
+    # exemplar labels: small / exactly at Prometheus' 128-rune limit (63 for trace_id + span_id) / over it
+    xua = [w("x"), sep("."), w("ua")]
+    eases = [
+        [],                                                                               # trace_id / span_id only
+        aset(attr([w("k")], "v"), attr(xua, "fa", f=True)),                               # small, next to a kept attribute
+        aset(attr(xua, "m" * 61, f=True)),                                                # 4 + 61 = 65: at the limit
+        aset(attr(xua, "m" * 62, f=True)),                                                # one rune over
+        aset(attr(xua, "Mozilla/5.0 (X11; Linux x86_64) AppleWebKit/537.36 Chrome/126", f=True),
+             attr([w("x"), sep("-"), w("n")], "42", "i", f=True)),                        # far over, two labels
+        aset(attr(ab(sep(".")), "z"), attr(ab(sep("_")), "y"), attr([w("x"), bad(" "), w("b")], "true", "b", f=True)),
+    ]
+    eopts = [dict(), dict(noScope=True, noTarget=True), dict(resConst=True, resKeys=[1])]
+    ekinds = ["counter", "hist", "gauge", "exphist"] + (["fcounter", "fhist", "updown"] if th else [])
+    add("exemplars", [opts(s, **o) for s in SCHEMES for o in (eopts if th else eopts[:2])],
+        [inst(1, [w("foo")], k, "s") for k in ekinds], ases=eases, recas=range(1, len(eases) + 1), vals=(3, 7, 12) if th else (3, 12),
+        maxrec=2, maxscr=2 if th else 1, spans=(True, False) if th else (True,), budget=None if th else 1500)
     # ---- values: what is exposed equals what the SDK aggregated, per kind
     vkinds = ["counter", "updown", "gauge", "hist", "exphist", "fcounter", "ocounter", "ogauge", "fhist", "oupdown"]
     if th:
@@ -282,6 +307,7 @@ def run(ctx):
         for c in configs(ctx.tier):
             dfn = {"OPTS": tla(TSet(c["opts"])), "TEMPLATES": tla(TSet(c["templates"])), "ASES": tla(c["ases"]),
                    "RECAS": tla(TSet(c["recas"])), "VALS": tla(TSet(c["vals"])), "RES": tla(c["res"]), "SCOPES": tla(c["scopes"]),
+                   "SPANFLAGS": tla(TSet(c["spans"])), "MARK": tla(c["mark"]),
                    "MAXINST": c["maxinst"], "MAXREC": c["maxrec"], "MAXSCR": c["maxscr"]}
             r = ctx.tlc(S, "MC_PromExport", "MC_PromExport.cfg", defines=dfn, want_edges=True, name=c["name"], timeout=3000,
                         coverage=(th and c["name"] == "conflicts"))
@@ -296,7 +322,7 @@ def run(ctx):
             with open(sel, "w") as f:
                 f.write("\n".join(scen) + "\n")
             cf = os.path.join(ctx.work, "consts-%s.json" % c["name"])
-            json.dump({"res": c["res"], "ases": c["ases"], "scopes": c["scopes"]}, open(cf, "w"))
+            json.dump({"res": c["res"], "ases": c["ases"], "scopes": c["scopes"], "nomark": not c["mark"]}, open(cf, "w"))
             nscen = 0
             for sch in SCHEMES:
                 if not any(o["scheme"] == sch for o in c["opts"]):
